@@ -194,7 +194,8 @@ def build_vhdx_disk(chain, rng, work, bs=1 << 20, sector=512, locator_mode="rela
                 loc = {"parent_linkage": "{11111111-2222-3333-4444-555555555555}", "relative_path": ".\\missing\\" + names[i + 1],
                        "absolute_win32_path": (d.lstrip("/") + "/" + names[i + 1]).replace("/", "\\")}
         vf, info = enc_vhdx.build(blocks, block_size=bs, sector_size=sector, disk_size=bs, has_parent=not is_base, locator=loc,
-                                  bitmaps=({0: bm} if bm is not None else None), file_id=i)
+                                  bitmaps=({0: bm} if bm is not None else None), file_id=i,
+                                  layout=rng.choice(["std", "std", "regions-last", "bat-last"]))     # the layers of a chain need not be laid out alike
         vf.materialise(os.path.join(d, names[i]))
         host.append({c: info["data_base"] + (pos if pos is not None else 0) * bs + c * cell for c in range(cb)})
     top = os.path.join(d, names[0])
@@ -543,7 +544,8 @@ def trace_vhdx_chain(tid, rng, nops, align=None):
                 loc = {"parent_linkage": "{11111111-2222-3333-4444-555555555555}", "relative_path": ".\\" + names[i + 1],
                        "absolute_win32_path": "C:\\nowhere\\" + names[i + 1]}
             vf, info = enc_vhdx.build(blocks, block_size=bs, sector_size=sector, disk_size=nb * bs, has_parent=not is_base, locator=loc,
-                                      bitmaps=({0: bytes(allbits)} if any(s_ == 7 for s_ in st) else None), file_id=i)
+                                      bitmaps=({0: bytes(allbits)} if any(s_ == 7 for s_ in st) else None), file_id=i,
+                                      layout=rng.choice(["std", "std", "regions-last", "bat-last"]))     # the layers of a chain need not be laid out alike
             vf.materialise(os.path.join(work, names[i]))
             layers.append({"fmt": "vhdx", "img": {"n": nb, "cb": spb, "st": st, "p": pp, "bm": bm, "size": nb * spb, "parent": not is_base}})
             bases.append(info["data_base"])
